@@ -22,7 +22,7 @@ META = {
  'C06': ('model-based PBT over scripted sessions (readline hook owns the schedule): per-line expectation from independently parsed matchers',
          'The harness owns the interleaving of lines and commands and attributes every output line to the input item that produced it.',
          'Matcher meaning is C05\'s business: expectations use an independently parsed copy of the same matcher text.'),
- 'C07': ('exhaustive enumeration of shipped protocol lookups + PBT over synthetic multi-version XML sets in every load order vs independent XML reader',
+ 'C07': ('exhaustive enumeration of shipped protocol lookups + PBT over synthetic multi-version XML sets in every load order vs independent XML reader + model-based PBT over generated histories (decoration is a function of the message alone) + differential runs of copies of the tree installed elsewhere',
          'All shipped interfaces x messages x argument positions and enum decodes are enumerated; version precedence is searched over generated XML.',
          'protoxml.py (own ElementTree reader) is the oracle; ties at equal maximal version accept any one description.'),
  'C08': ('PBT over generated streams with chatter: line-by-line conservation, keeps-pace via read hook, prefix law at every truncation offset; line-count conservation of real main.py runs under generated option combinations',
@@ -33,17 +33,17 @@ META = {
          'fakegdb models the gdb Python API symbolically (cross-checked against real gdb 13 on a generated C mock in the thorough tier).'),
  'C10': ('model-based stateful PBT (RuleBasedStateMachine) on Plugin+Controller with the gdb stand-in; prompt loop with scripted input',
          'stop() results, Stopped-at notices and gdb.execute log compared with a model of breakpoint/selection/pause after every step.',
-         'fakegdb stand-in; breakpoint accumulation model shared with C12.'),
- 'C11': ('model-based PBT over scripted sessions: `list` output vs independently filtered record; count identity; state unchanged',
+         'fakegdb stand-in (a quit can be declined at its confirmation); breakpoint accumulation model shared with C12; connection-only and bare-id alternatives are evaluated by evaluators of our own, other atoms by a parse of that single atom.'),
+ 'C11': ('model-based PBT over scripted sessions (also sessions of thousands of messages expanded from templates): `list` output vs independently filtered record and vs the reference semantics of the matcher language; count identity; state unchanged',
          'Every listing is compared with the recorded history filtered by an independently parsed matcher, including caps and counts.',
-         'Matcher meaning is C05\'s business.'),
+         'Listings whose matcher was rendered from a syntax tree are also compared with the reference semantics of DESIGN appendix A where that is settled; other matcher texts are evaluated with a fresh parse of the same text.'),
  'C12': ('model-based PBT: sequences of filter/breakpoint commands vs accumulator model over atoms, evaluated on a message universe after every step',
          'An independent accumulator (alternatives, exclusions, star flag) predicts selection for every message after every command.',
          'Outcomes the statement leaves open (alternatives absorbed by *) are skipped and counted.'),
- 'C13': ('differential PBT over real subprocesses: file vs pipe vs run mode, chunkings/delays (also a slow producer on the pipe), per-process hash seeds, undecodable bytes, -b/--supress, exit status, child argv/env report',
+ 'C13': ('differential PBT over real subprocesses: file vs pipe vs run mode, chunkings/delays (also a slow producer on the pipe), per-process hash seeds, undecodable bytes, byte order mark, -b/--supress, file mode on a FIFO and /dev/stdin, standard output (and input) on pseudo-terminals, exit status, child argv/env report',
          'main.py is run three ways on the same generated stream; outputs, child report and exit status are compared.',
          'Chunkings and delays are sampled on a real pipe; kernel scheduling is not enumerated. LC_ALL=C.UTF-8 (the only kind of locale in the sandbox).'),
- 'C14': ('exhaustive enumeration of letter ids through four letters + PBT: every label of generated histories used as a matcher vs model mention sets, also inside scripted sessions (selection changes, labels given to filter/breakpoint before)',
+ 'C14': ('exhaustive enumeration of letter ids through four letters + PBT: every label of generated histories (also of sessions expanded to thousands of messages, incarnations beyond zz, up to 1060 connections) used as a matcher vs model mention sets, also inside scripted sessions (selection changes by name / app id / refused names, labels given to filter/breakpoint before)',
          'Bijection/shortlex order enumerated for 475254 indexes; labels-as-matchers compared with the model in both inclusions.',
          'Reference model of DESIGN appendix B.'),
  'C15': ('model-based stateful PBT (RuleBasedStateMachine) on the GDB plugin with the gdb stand-in: messages/destroys on several addresses and threads',
@@ -58,7 +58,7 @@ META = {
  'C18': ('totality PBT + coverage-guided fuzzing (atheris) + subprocess byte fuzzing: only documented rejection channels may be used',
          'Mutated and arbitrary lines/matchers/commands/bytes are thrown at the four entry points; any exception that escapes the tool (a traceback on stderr, an aborted prompt loop, a wrong exit status, an unclosed connection) is a violation; an internal error the line loop catches, prints and survives is counted in the evidence, not reported (DESIGN 10.3).',
          'A slow input is inconclusive, never a violation. LC_ALL=C.UTF-8; strictly decoding standard streams (as under an ordinary UTF-8 locale) are reproduced with PYTHONIOENCODING.'),
- 'C19': ('differential PBT: generated argument vectors vs reference splitter; argv observed by the child / by Python inside real gdb via a shim',
+ 'C19': ('differential PBT: generated argument vectors vs reference splitter; argv observed by the child / by Python inside real gdb via a shim; the real gdb in batch mode through main.py answering for the options it was given',
          'parse_args is compared with an own left-to-right splitter; forwarded words are observed from the receiving side.',
          'Option values are separate words not starting with "-" (the statement\'s domain).'),
 }
